@@ -53,13 +53,23 @@ MUTATING = ("create", "write", "close", "replace", "rename", "remove",
 
 
 def xyz():
-    return core.import_target()
+    x = core.import_target()
+    # victims and recoveries are forked: no worker threads may be alive in
+    # the parent (dask's default scheduler keeps a thread pool)
+    import dask
+    dask.config.set(scheduler="synchronous")
+    return x
 
 
 # ------------------------------------------------------------------ scenario
 
 SPEC = {"vars": [["out", []], ["E", []]], "sizes": {}, "ret": "tuple",
         "log": None}
+
+
+def sampler_file(sc):
+    # (a data name without any dot is as good as one with an extension)
+    return "samples" if sc.get("bare_name") else "samples.pkl"
 
 
 def make_farmer(x, sc, D):
@@ -74,8 +84,12 @@ def make_farmer(x, sc, D):
         if sc.get("engine") == "joblib":
             return x.Harvester(r, data_name=os.path.join(D, "full.dmp"),
                                engine="joblib"), fn
+        if sc.get("chunks"):
+            # lazily loaded (dask-backed) full dataset
+            return x.Harvester(r, data_name=os.path.join(D, "full.h5"),
+                               chunks=sc["chunks"]), fn
         return x.Harvester(r, data_name=os.path.join(D, "full.h5")), fn
-    return x.Sampler(r, data_name=os.path.join(D, "samples.pkl"),
+    return x.Sampler(r, data_name=os.path.join(D, sampler_file(sc)),
                      default_combos={"a": list(range(sc["N"])),
                                      "b": ["p", "q"]}), fn
 
@@ -366,7 +380,7 @@ def check_store(x, sc, D, ctx, tag, need_new):
                 require(ok, "new-harvest-missing",
                         f"{tag}: a={a} is not in the file after recovery")
     elif kind == "sampler":
-        path = os.path.join(D, "samples.pkl")
+        path = os.path.join(D, sampler_file(sc))
         require(os.path.exists(path), "sampler-file-lost",
                 f"{tag}: the sampler's file is gone")
         try:
@@ -531,6 +545,10 @@ def scenarios(tier, seed):
                     sc["no_pre"] = True
                 if farmer == "harvester" and r % 3 == 1:
                     sc["engine"] = "joblib"
+                if farmer == "harvester" and r % 3 == 0:
+                    sc["chunks"] = 2
+                if farmer == "sampler" and r % 3 == 1:
+                    sc["bare_name"] = True
                 out.append(sc)
     return out
 
